@@ -1,6 +1,6 @@
 (* C12 — property theorems only. Each is closed by [exact] of a lemma of Proofs_*.v; Examples are non-vacuity /
    refutation witnesses computed on concrete data. No bound on the number of samples, variables or lags anywhere. *)
-From Coq Require Import List ZArith QArith Bool Permutation Sorted.
+From Coq Require Import List ZArith QArith Bool Permutation Sorted Reals Qreals.
 From Gst Require Import lib.QAux C12.Model C12.Spec C12.Proofs.
 Import ListNotations.
 Local Open Scope Q_scope.
@@ -77,6 +77,13 @@ Theorem C12_lagrank_unique_class : forall d, 0 < d_dpas d ->
   forall d2, 0 <= d2 -> lag_rank d d2 = lag_spec d d2.
 Proof. exact lag_rank_eq_spec. Qed.
 Print Assumptions C12_lagrank_unique_class.
+
+(* the same over the reals: with s = sqrt(d2) (the real square root of the rational squared distance),
+   getLagRank returns k iff  k < npas,  k - 1/2 <= s/dpas < k + 1/2  and  |s - k dpas| <= tol dpas *)
+Theorem C12_lagrank_real : forall d d2 k, 0 < d_dpas d -> 0 <= d_tol d -> 0 <= d2 ->
+  (lag_rank d d2 = Some k <-> in_class_R (d_npas d) (Q2R (d_dpas d)) (Q2R (d_tol d)) (Q2R d2) k).
+Proof. exact lag_rank_real. Qed.
+Print Assumptions C12_lagrank_real.
 
 Example C12_lagrank_nonvacuous :
   (* d = sqrt(13) ~ 3.606, lag 1.5, tolerance 1/4: 3.606 / 1.5 = 2.404 -> class 2, |3.606 - 3| = 0.606 > 0.375 -> none;
@@ -218,6 +225,34 @@ Theorem C12_cov_mirror : forall cf d iv jv k o L, o <> Ozero ->
 Proof. exact cov_sums_mirror. Qed.
 Print Assumptions C12_cov_mirror.
 
+(* what getSwVec / getGgVec report for the covariance (after _rescale, _centerCovariance, _patchC00) *)
+Theorem C12_reports_cov : forall cf d,
+  c_calc cf = Cov \/ c_calc cf = CovNC -> c_dateLoop cf = false -> c_dateChk cf = false ->
+  0 < d_dpas d -> 0 <= d_tol d -> 0 <= d_psmin d -> 0 < Qred (dot (d_codir d) (d_codir d)) ->
+  forall n l iv jv k o, Forall (same_dim n) l ->
+  (jv <= iv)%nat -> (iv < c_nvar cf)%nat -> (k < d_npas d)%nat -> o <> Ozero ->
+  let L := filter (usable cf) (sort_x1 l) in
+  let S := pair_sum (fun a b => fst (cov_pair cf d iv jv k o a b)) L in
+  let G := pair_sum (fun a b => snd (cov_pair cf d iv jv k o a b)) L in
+  exists oc,
+    nth_error (mapi (center_patch_cell cf (d_npas d) (gstats cf l iv jv))
+                    (block (2 * d_npas d + 1) (var_rank iv jv) (rescale cf (d_npas d) (accumulate1 cf d l))))
+              (side_index (d_npas d) k o) = Some oc /\
+    o_sw oc == S /\
+    (S <= 0 -> o_gg oc = None /\ o_hh oc = None) /\
+    (0 < S -> exists g, o_gg oc = Some (g, g) /\ g == G / S - centring cf l iv jv).
+Proof. intros cf d H1 H2 H3 H4 H5 H6 H7. exact (solution1_cov_reports cf d H1 H2 H3 H4 H5 H6 H7). Qed.
+Print Assumptions C12_reports_cov.
+
+Theorem C12_reports_cov_layout : forall cf d l, is_asym (c_calc cf) = true ->
+  solution1 cf d l =
+  map (fun p : nat * nat =>
+         mapi (center_patch_cell cf (d_npas d) (gstats cf l (fst p) (snd p)))
+              (block (2 * d_npas d + 1) (var_rank (fst p) (snd p)) (rescale cf (d_npas d) (accumulate1 cf d l))))
+      (var_pairs (c_nvar cf)).
+Proof. exact solution1_asym_blocks. Qed.
+Print Assumptions C12_reports_cov_layout.
+
 (* hh is reported through enclosures of the square roots *)
 Theorem C12_sqrt_enclosure : forall x, 0 <= x ->
   0 <= sqrt_lo x /\ sqrt_lo x * sqrt_lo x <= x /\ x < sqrt_hi x * sqrt_hi x /\ sqrt_hi x == sqrt_lo x + 1 / inject_Z sq_prec.
@@ -283,6 +318,17 @@ Theorem C12_permutation : forall cf d n l l' iv jv k,
   a_ghi (nth adr (accumulate1 cf d l) cell0) == a_ghi (nth adr (accumulate1 cf d l') cell0).
 Proof. exact accumulate1_vg_perm. Qed.
 Print Assumptions C12_permutation.
+
+(* variogram, madogram, order-4: EVERY field of every accumulator (weight, mean-separation enclosure, value enclosure) *)
+Theorem C12_permutation_sym : forall cf d n l l' iv jv k,
+  plain_sym (c_calc cf) -> c_dateLoop cf = false -> c_dateChk cf = false ->
+  0 < d_dpas d -> 0 <= d_tol d -> 0 <= d_psmin d -> 0 < Qred (dot (d_codir d) (d_codir d)) ->
+  Forall (same_dim n) l -> Permutation l l' ->
+  (jv <= iv)%nat -> (iv < c_nvar cf)%nat -> (k < d_npas d)%nat ->
+  cell_eq (nth (dir_address false (d_npas d) iv jv k Ozero) (accumulate1 cf d l) cell0)
+          (nth (dir_address false (d_npas d) iv jv k Ozero) (accumulate1 cf d l') cell0).
+Proof. exact accumulate1_plain_sym_perm. Qed.
+Print Assumptions C12_permutation_sym.
 
 (* in date mode: sums over ordered pairs do not depend on the order of the samples either *)
 Theorem C12_permutation_dates : forall (f : sample -> sample -> Q) l l', Permutation l l' -> opair_sum f l == opair_sum f l'.
